@@ -555,7 +555,7 @@ def run(ctx):
                  for i, c in enumerate(diff.load_corpus("C45"))]
         sp = special_items()
         cases.append(make_case("sp", sp, tmpdir))
-        n = 1800 if tier == "quick" else 40000
+        n = 1800 if tier == "quick" else 30000
         items = [gen_item(rng, 4 if tier == "quick" else 5) for _ in range(n)]
         for i in range(0, len(items), 50):
             cases.append(make_case("g%d" % (i // 50), items[i:i + 50], tmpdir))
